@@ -440,6 +440,7 @@ impl LockFreeMemoryPool {
 
         // Try to pop from lock-free stack with CAS retry loop
         for retry in 0..self.config.max_cas_retries {
+            verif_point!("lfp.alloc.load", bin_index);
             // ABA-SAFE: Load packed value (offset + generation)
             let packed = bin.head.load(Ordering::Acquire);
             let (current_offset, current_gen) = Self::unpack_head(packed);
@@ -449,6 +450,7 @@ impl LockFreeMemoryPool {
                 return self.allocate_new_block(size);
             }
 
+            verif_point!("lfp.alloc.next", bin_index, current_offset);
             // Load next pointer from current head
             let next_offset = unsafe {
                 let current_ptr = self.offset_to_ptr(current_offset)?;
@@ -458,6 +460,7 @@ impl LockFreeMemoryPool {
             // ABA-SAFE: Pack next offset with INCREMENTED generation counter
             // This prevents ABA: even if offset A→B→A, generation won't match
             let next_packed = Self::pack_head(next_offset, current_gen.wrapping_add(1));
+            verif_point!("lfp.alloc.cas", bin_index, current_offset);
 
             // Try to update head atomically
             match bin.head.compare_exchange_weak(
@@ -503,6 +506,7 @@ impl LockFreeMemoryPool {
 
         // Try to push to lock-free stack with CAS retry loop
         for retry in 0..self.config.max_cas_retries {
+            verif_point!("lfp.free.load", bin_index, offset);
             // ABA-SAFE: Load packed value (offset + generation)
             let packed = bin.head.load(Ordering::Acquire);
             let (current_offset, current_gen) = Self::unpack_head(packed);
@@ -515,6 +519,7 @@ impl LockFreeMemoryPool {
 
             // ABA-SAFE: Pack new offset with INCREMENTED generation counter
             let new_packed = Self::pack_head(offset, current_gen.wrapping_add(1));
+            verif_point!("lfp.free.cas", bin_index, offset);
 
             // Try to update head atomically
             match bin.head.compare_exchange_weak(
@@ -567,6 +572,7 @@ impl LockFreeMemoryPool {
     /// Allocate a new block from the backing memory with cache optimizations
     fn allocate_new_block(&self, size: usize) -> Result<NonNull<u8>> {
         let aligned_size = self.align_size(size);
+        verif_point!("lfp.new", aligned_size);
         
         // Always allocate from backing memory to ensure consistent pointer validation
         // External cache allocations would cause pointer validation failures in deallocate
